@@ -23,6 +23,9 @@ pub fn install_virtual_clock() {
 }
 
 pub fn silence_panics() {
+    if std::env::var("NUNVERIF_SHOW_PANICS").is_ok() {
+        return;
+    }
     std::panic::set_hook(Box::new(|_| {}));
 }
 
